@@ -9,7 +9,11 @@
               - a data packet, delivered for the first time while the receiver holds the other end of the tunnel
                 it was sent on, did not come out of the tun (or something came out of a tun that is not that);
               - after the fair loss-free rounds the nodes do not hold exactly one tunnel each with swapped
-                indexes and no pending handshake. *)
+                indexes and no pending handshake;
+              - at a mark the harness sets after quiet, loss-free check intervals that followed a matched state
+                (mark kind 1: some node holds no tunnel; kind 2: in addition the two primaries are not each other's
+                ends), or a data packet emitted after a kind-2 mark is not delivered to the tun at its first
+                delivery. *)
 From Coq Require Import List NArith Bool.
 Import ListNotations.
 From NV Require Import lib.Corr model.Converge.
@@ -22,7 +26,8 @@ Definition nobs := (option (bool * N * N * N) * list (N * N * N * N))%type.
 Definition obs := (nobs * nobs * list (N * N * N) * list N)%type.
 
 Inductive case :=
-| CSched (a b : addr) (retries : N) (settled : bool) (steps : list (ev * obs))
+| CSched (a b : addr) (retries : N) (settled : bool) (marks : list (N * N)) (steps : list (ev * obs))
+      (* marks: (number of steps done, kind) *)
 | CSwap (me peer : addr) (rekey nocert sigeq : bool) (r : bool)   (* the real shouldSwapPrimary *)
 | CCmp (a b : addr) (r : N).                                      (* the real netip.Addr.Compare: 0 <, 1 =, 2 > *)
 
@@ -59,7 +64,8 @@ Record track := mkTr {
   k_ever_a : list (N * N); k_ever_b : list (N * N);       (* (local, remote) ever held *)
   k_sw_a : bool; k_sw_b : bool;
   k_log : list (node * (N * N * N) * N);                  (* every emitted packet: sender, header, sender's local index *)
-  k_deliv : list N                                        (* positions delivered so far *)
+  k_deliv : list N;                                       (* positions delivered so far *)
+  k_strict : option N                                     (* log length at a kind-2 mark: later data must arrive *)
 }.
 Definition pair_mem (p : N * N) (l : list (N * N)) : bool :=
   existsb (fun q => (fst q =? fst p) && (snd q =? snd p)) l.
@@ -106,7 +112,8 @@ Definition spec_step (ca cb : addr) (tr : track) (e : ev) (o : obs) : track * bo
       | Some (src, (code, hidx, _), sl) =>
         let first := negb (existsb (N.eqb k) (k_deliv tr)) in
         let held := existsb (fun t => (fst (lr t) =? hidx) && (snd (lr t) =? sl)) (tuns_of (prev (other src))) in
-        if (code =? 3) && first && held then (N.of_nat (length tunout) =? 1)
+        let strict := match k_strict tr with Some from => from <=? k | None => false end in
+        if (code =? 3) && first && (held || strict) then (N.of_nat (length tunout) =? 1)
         else if code =? 3 then (N.of_nat (length tunout) <=? 1)
         else match tunout with [] => true | _ => false end
       | None => match tunout with [] => true | _ => false end
@@ -121,7 +128,7 @@ Definition spec_step (ca cb : addr) (tr : track) (e : ev) (o : obs) : track * bo
     else 0 in
   let log := k_log tr ++ map (fun h => (act, h, sender_l h)) emit in
   let deliv := match e with EDeliver k _ => k :: k_deliv tr | _ => k_deliv tr end in
-  (mkTr oa ob ever_a ever_b sw_a sw_b log deliv, ok_swap && ok_mirror && ok_traffic).
+  (mkTr oa ob ever_a ever_b sw_a sw_b log deliv (k_strict tr), ok_swap && ok_mirror && ok_traffic).
 
 Definition final_ok (tr : track) : bool :=
   match k_prev_a tr, k_prev_b tr with
@@ -129,12 +136,32 @@ Definition final_ok (tr : track) : bool :=
   | _, _ => false
   end.
 
-Fixpoint spec_run (ca cb : addr) (tr : track) (steps : list (ev * obs)) : track * bool :=
+Definition primaries_match (tr : track) : bool :=
+  match tuns_of (k_prev_a tr), tuns_of (k_prev_b tr) with
+  | ta :: _, tb :: _ => (fst (lr ta) =? snd (lr tb)) && (snd (lr ta) =? fst (lr tb))
+  | _, _ => false
+  end.
+Definition both_hold (tr : track) : bool :=
+  match tuns_of (k_prev_a tr), tuns_of (k_prev_b tr) with _ :: _, _ :: _ => true | _, _ => false end.
+
+(* the marks due after [n] steps *)
+Definition mark_step (marks : list (N * N)) (n : N) (tr : track) : track * bool :=
+  fold_left (fun acc m =>
+               let '(t, ok) := acc in
+               if fst m =? n then
+                 if snd m =? 2 then (mkTr (k_prev_a t) (k_prev_b t) (k_ever_a t) (k_ever_b t) (k_sw_a t) (k_sw_b t) (k_log t)
+                                          (k_deliv t) (Some (N.of_nat (length (k_log t)))),
+                                     ok && both_hold t && primaries_match t)
+                 else (t, ok && both_hold t)
+               else acc) marks (tr, true).
+
+Fixpoint spec_run (ca cb : addr) (marks : list (N * N)) (n : N) (tr : track) (steps : list (ev * obs)) : track * bool :=
   match steps with
   | [] => (tr, true)
   | (e, o) :: r =>
     let '(tr1, ok) := spec_step ca cb tr e o in
-    if ok then spec_run ca cb tr1 r else (tr1, false)
+    let '(tr2, okm) := mark_step marks (n + 1) tr1 in
+    if ok && okm then spec_run ca cb marks (n + 1) tr2 r else (tr2, false)
   end.
 
 (* ---- the model next to the observations ---------------------------------------------------------------------- *)
@@ -154,9 +181,9 @@ Definition cmp_code (c : comparison) : N := match c with Lt => 0 | Eq => 1 | Gt 
 
 Definition check_case (c : case) : list N :=
   match c with
-  | CSched a b retries settled steps =>
+  | CSched a b retries settled marks steps =>
     let empty : nobs := (None, []) in
-    let '(tr, ok) := spec_run a b (mkTr empty empty [] [] false false [] []) steps in
+    let '(tr, ok) := spec_run a b marks 0 (mkTr empty empty [] [] false false [] [] None) steps in
     flag 2 (ok && (negb settled || final_ok tr)) ++
     flag 1 (model_run (mkC a b retries) init steps)
   | CSwap me peer rk nc se r =>
